@@ -173,6 +173,9 @@ func (s *State) truth(c *Term) int {
 			r = s.eqTruth(c.Args[0], c.Args[1])
 		} else if c.Op == "lt" {
 			r = s.ltByBounds(c.Args[0], c.Args[1])
+			if r < 0 {
+				r = s.ltByLinear(c.Args[0], c.Args[1])
+			}
 			// replace an operand by a constant it is known to equal
 			for i := 0; i < 2 && r < 0; i++ {
 				if k, ok := s.constOf(c.Args[i]); ok {
@@ -243,6 +246,115 @@ func (s *State) ltByBounds(a, b *Term) int {
 		}
 	}
 	return -1
+}
+
+// ltByLinear decides a < b when b - a (or a - b) is a sum of a constant and
+// atoms with known constant bounds: last < last + 1 + j for a counter j >= 0.
+func (s *State) ltByLinear(a, b *Term) int {
+	if a.Op != "bin" && b.Op != "bin" {
+		return -1
+	}
+	coef := map[string]int64{}
+	atoms := map[string]*Term{}
+	var c int64
+	var lin func(t *Term, k int64) bool
+	lin = func(t *Term, k int64) bool {
+		if v, ok := termInt(t); ok {
+			c += k * v
+			return true
+		}
+		if t.Op == "bin" && len(t.Args) == 2 && (t.Aux == "+" || t.Aux == "-") {
+			if _, isStr := constString(t.Args[1]); isStr {
+				return false
+			}
+			k2 := k
+			if t.Aux == "-" {
+				k2 = -k
+			}
+			return lin(t.Args[0], k) && lin(t.Args[1], k2)
+		}
+		coef[t.key] += k
+		atoms[t.key] = t
+		return true
+	}
+	if !lin(b, 1) || !lin(a, -1) {
+		return -1
+	}
+	// bounds of d = b - a
+	lo, hi := c, c
+	loOK, hiOK := true, true
+	for k, co := range coef {
+		if co == 0 {
+			continue
+		}
+		lb, hasL, ub, hasU := s.constBounds(atoms[k])
+		if co > 0 {
+			if hasL {
+				lo += co * lb
+			} else {
+				loOK = false
+			}
+			if hasU {
+				hi += co * ub
+			} else {
+				hiOK = false
+			}
+		} else {
+			if hasU {
+				lo += co * ub
+			} else {
+				loOK = false
+			}
+			if hasL {
+				hi += co * lb
+			} else {
+				hiOK = false
+			}
+		}
+	}
+	if loOK && lo >= 1 {
+		return 1
+	}
+	if hiOK && hi <= 0 {
+		return 0
+	}
+	return -1
+}
+
+// constBounds: constant lower / upper bounds of an integer term recorded on the path.
+func (s *State) constBounds(t *Term) (lb int64, hasL bool, ub int64, hasU bool) {
+	if t.Op == "len" || isUnsignedTerm(t) {
+		lb, hasL = 0, true
+	}
+	for k, v := range s.facts {
+		f := s.fterm[k]
+		if f == nil || f.Op != "lt" || len(f.Args) != 2 {
+			continue
+		}
+		if f.Args[0] == t {
+			if cst, ok := termInt(f.Args[1]); ok {
+				if v { // t < cst
+					if !hasU || cst-1 < ub {
+						ub, hasU = cst-1, true
+					}
+				} else if !hasL || cst > lb { // t >= cst
+					lb, hasL = cst, true
+				}
+			}
+		}
+		if f.Args[1] == t {
+			if cst, ok := termInt(f.Args[0]); ok {
+				if v { // cst < t
+					if !hasL || cst+1 > lb {
+						lb, hasL = cst+1, true
+					}
+				} else if !hasU || cst < ub { // t <= cst
+					ub, hasU = cst, true
+				}
+			}
+		}
+	}
+	return
 }
 
 // constOf: a constant the term is known to equal through an eq fact.
@@ -729,6 +841,11 @@ func (x *Exec) binop(op token.Token, a, b *Term, typ types.Type) *Term {
 		if ib, ok := constInt(b); ok {
 			if t := addConst(a, -ib, typ); t != nil {
 				return t
+			}
+		}
+		if a == b {
+			if bt, ok := typ.Underlying().(*types.Basic); ok && bt.Info()&types.IsInteger != 0 {
+				return tConst("0", typ)
 			}
 		}
 	case token.OR:
